@@ -7,9 +7,12 @@ History-level theorems are for EVERY history of acquire / acquire_timeout / rele
 any capacity.  `value_` is an unsigned int in the code; wrap-around after 2^32 releases is not modelled.
 FIFO: `sem_fifo` (history level, tickets: grants to blocked acquirers ++ current queue = the request sequence minus the
 timed-out requests) with its corollaries `sem_fifo_grant_order`, `sem_fifo_no_overtake`, `sem_fifo_next_is_oldest`;
-`sem_fifo_partial` is the older step-level statement (kept).
+`sem_fifo_partial` is the older step-level statement (kept).  Split path of the model checker (SEM_ASYNC_LOCK and
+SEM_WAIT as separate events, any interleaving): `split_sem_conservation`, `split_sem_fifo`, `split_sem_fifo_no_overtake`
+at the end of the file, over the run of C05/Split.lean (no restriction on the histories).
 -/
 import SgVerif.C05.Lemmas
+import SgVerif.C05.SplitLemmas
 namespace SgVerif.C05
 open SgVerif.Sync
 
@@ -306,5 +309,74 @@ example : ((grun (GSt.init 1) [.acquire 0 false, .acquire 1 true, .acquire 2 fal
 example : ((grun (GSt.init 1) [.acquire 0 false, .acquire 1 true, .acquire 2 false, .acquire 3 true, .timeout 1,
       .release 0, .release 2]).toOption.map (fun r => r.2)) =
     some [(0, .flag false), (1, .flag true), (2, .flag false), (0, .unit), (3, .flag false), (2, .unit)] := by decide
+
+/-! ### the SPLIT path, whole histories
+
+For ALL sequences of SEM_ASYNC_LOCK / SEM_WAIT / SEM_UNLOCK / timer events by any actors (`xrun`, C05/Split.lean; no
+well-formedness condition at all), any capacity.  A grant = an acquisition granted at once by SEM_ASYNC_LOCK or popped
+by a release (whether or not its issuer already executed its SEM_WAIT). -/
+
+/-- `World.step` on the split events applies exactly the functions the split run applies, with the same answers -/
+theorem split_step_is_world_step (w : World) (a : Aid) (s : Nat) (timed : Bool) :
+    w.step (.semAsync a s) =
+      .ok ({ w with sems := upd w.sems s ((w.sems s).acquireAsync a).1,
+                    hgrant := upd w.hgrant a ((w.sems s).acquireAsync a).2 }, [(a, .unit)]) ∧
+    w.step (.semWait a s timed) =
+      .ok ({ w with sems := upd w.sems s ((w.sems s).waitFor a (w.hgrant a) timed).1 },
+           optOut a ((w.sems s).waitFor a (w.hgrant a) timed).2) :=
+  ⟨rfl, rfl⟩
+
+/-- split path, token conservation and reported capacity, every history -/
+theorem split_sem_conservation (c : Nat) (es : List XEv) (x : XSt) (o : Outs)
+    (h : xrun (XSt.init c) es = .ok (x, o)) :
+    x.grants ≤ c + x.releases ∧ x.s.value + x.grants = c + x.releases ∧ (x.s.queue ≠ [] → x.s.value = 0) := by
+  have hi := xinv_run es (xinv_init c) h
+  have hcap : x.cap = c := xrun_cap es h
+  have := hi.conserve
+  exact ⟨by omega, by omega, hi.empty⟩
+
+/-- split path, FIFO, every history (same ticket statement as `sem_fifo`): grants made by `release` to queued
+acquisitions, in grant order, followed by the tickets still queued = all tickets in SEM_ASYNC_LOCK order minus the
+timed-out ones; each grant went to the issuer of that acquisition; the ghost queue is the kernel queue — whatever the
+interleaving of the SEM_WAITs -/
+theorem split_sem_fifo (c : Nat) (es : List XEv) (x : XSt) (o : Outs) (h : xrun (XSt.init c) es = .ok (x, o)) :
+    x.granted.map (·.1) ++ x.tq = (List.range x.reqs.length).filter (fun k => !x.touts.contains k) ∧
+    (∀ y ∈ x.granted, x.reqs[y.1]? = some y.2) ∧
+    x.tq.map (fun k => x.reqs[k]?) = x.s.queue.map (fun q => some q.issuer) :=
+  let hi := xinv_run es (xinv_init c) h
+  ⟨hi.part, hi.gr, hi.par⟩
+
+/-- split path, no overtaking: a granted acquisition ⇒ every earlier queued acquisition was granted before it or
+removed by its timeout -/
+theorem split_sem_fifo_no_overtake (c : Nat) (es : List XEv) (x : XSt) (o : Outs)
+    (h : xrun (XSt.init c) es = .ok (x, o)) (k : Nat) (hk : k ∈ x.granted.map (·.1)) (j : Nat) (hj : j < k) :
+    j ∈ x.granted.map (·.1) ∨ j ∈ x.touts := by
+  have hi := xinv_run es (xinv_init c) h
+  by_cases ht : j ∈ x.touts
+  · exact .inr ht
+  · left
+    have hkl := hi.lt k (List.mem_append_left _ hk)
+    have hm : j ∈ x.granted.map (·.1) ++ x.tq := by
+      rw [hi.part, List.mem_filter]
+      exact ⟨List.mem_range.mpr (by omega), by simpa using ht⟩
+    rcases List.mem_append.mp hm with hm | hm
+    · exact hm
+    · have hs : (x.granted.map (·.1) ++ x.tq).Pairwise (· < ·) := by
+        rw [hi.part]; exact List.Pairwise.filter _ List.pairwise_lt_range
+      have := (List.pairwise_append.mp hs).2.2 k hk j hm
+      omega
+
+/-- non-vacuity, split path: 0 takes the token; 1, 2, 3 lock asynchronously (tickets 0, 1, 2); 2 waits first, then 1
+(timed), whose timer fires; release serves ticket 1 (actor 2, registered: answered), a second release serves ticket 2
+(actor 3, not yet waiting: granted silently), whose late SEM_WAIT returns at once -/
+example : ((xrun (XSt.init 1) [.async 0, .wait 0 false, .async 1, .async 2, .async 3, .wait 2 false, .wait 1 true,
+      .timeout 1, .release 0, .release 2, .wait 3 false]).toOption.map
+      (fun r => (r.1.reqs, r.1.granted, r.1.touts, r.1.tq))) =
+    some ([1, 2, 3], [(1, 2), (2, 3)], [0], []) := by decide
+
+example : ((xrun (XSt.init 1) [.async 0, .wait 0 false, .async 1, .async 2, .async 3, .wait 2 false, .wait 1 true,
+      .timeout 1, .release 0, .release 2, .wait 3 false]).toOption.map (fun r => r.2)) =
+    some [(0, .unit), (0, .flag false), (1, .unit), (2, .unit), (3, .unit), (1, .flag true), (2, .flag false),
+          (0, .unit), (2, .unit), (3, .flag false)] := by decide
 
 end SgVerif.C05
